@@ -234,15 +234,21 @@ func runPint(t *testing.T, env simEnv, record bool) pintRun {
 	// stderr carries two things: the console report (what the property is about) and slog
 	// lines such as "Query returned an error", which are a log of events in the order they
 	// happened and therefore legitimately follow the schedule. Keep them apart.
-	var rep, logs []string
+	var rep, logs, summaryLogs []string
 	for _, l := range strings.Split(string(b), "\n") {
 		if strings.HasPrefix(l, "level=") {
 			logs = append(logs, l)
+			if strings.Contains(l, "Some checks were disabled because") {
+				// not an event but a summary printed once per server and API at the end of the
+				// run (which checks were switched off): a function of the configuration
+				summaryLogs = append(summaryLogs, l)
+			}
 		} else {
 			rep = append(rep, l)
 		}
 	}
-	res.Stderr = strings.Join(rep, "\n")
+	sort.Strings(summaryLogs)
+	res.Stderr = strings.Join(append(rep, summaryLogs...), "\n")
 	res.LogLines = len(logs)
 	if env.JSONOut != "" {
 		j, _ := os.ReadFile(filepath.Join(dir, env.JSONOut))
